@@ -209,9 +209,9 @@ def run(tier, seed, replay):
                        "spline tables are built by SciPy: the interpolation accuracy of order >= 2 at the samples is SciPy's (checked to 1e-6 relative on grids with spacing ratio <= 100)",
                        "string coefficients: the Cython compilation cannot run in this sandbox; the interpreted path and the parsed (pre-compilation) form are exercised"]
     core.build_repo()
-    proved = core.prove(rep, ["Qv.Model.C06", "Qv.Proofs.C06", "Qv.Props.C06"], "Qv.Props.C06")
+    proved = core.prove(rep, ["Qv.Model.C06", "Qv.Proofs.C06", "Qv.Props.C06", "Qv.Props.C06Spline"], ["Qv.Props.C06", "Qv.Props.C06Spline"])
     if tier == "thorough":
-        core.leanchecker(rep, ["Qv.Props.C06"])
+        core.leanchecker(rep, ["Qv.Props.C06", "Qv.Props.C06Spline"])
     import qutip
     from qutip.core.cy.coefficient import InterCoefficient, FunctionCoefficient
     rng = np.random.default_rng(seed)
